@@ -108,8 +108,7 @@ def pp(e, mode="full", ctx=None):
         return "case [" + ", ".join(f"{pp(c, mode)} => {pp(v, mode)}" for c, v in e.a[0]) + "]"
     if k == "in":
         x, lo, hi = e.a
-        rng = ("" if lo is None else str(lo)) + ".." + ("" if hi is None else str(hi))
-        return f"({_atom(x, mode)} | in {rng})"
+        return f"({_atom(x, mode)} | in {_rng(lo, hi)})"
     if k == "fn":
         name, args = e.a
         return "(" + " ".join([name] + [_atom(a, mode) for a in args]) + ")" if args else name
@@ -204,7 +203,8 @@ class Prog:
 
 
 def _rng(lo, hi):
-    return ("" if lo is None else str(lo)) + ".." + ("" if hi is None else str(hi))
+    b = lambda n: "" if n is None else (f"({n})" if n < 0 else str(n))
+    return b(lo) + ".." + b(hi)
 
 
 def tr_text(t, mode, ind=""):
@@ -421,6 +421,8 @@ class Ref:
             return v_or(a, b)
         if op == "??":
             return v_coalesce(a, b)
+        if op == "**":
+            return v_pow(a, b)
         raise Unsupported(op)
 
     # -- aggregate / window functions
